@@ -44,7 +44,11 @@ RULE = ("*_protocol: stopper parameters from the grid of the property's quantifi
         "(whole steps, 34650) and of 2 evaluations x max_steps 3 (single operations, 924) per parameter/curve set, one case = "
         "one block of interleavings sharing a prefix (block_runs in the histogram); search_end_to_end: RandomSearch on the "
         "SerialEvaluator with an async run-function, operation order as produced by the evaluator; free_ops: arbitrary "
-        "budgets and operations after a stop (model fidelity only, no oracle). non-trivial = at least one evaluation is "
+        "budgets, repeated stopped(), operations after a stop (model fidelity only, no oracle). Across the streams: 8 objective "
+        "families (monotone, crossing, constant, noisy, plateau, near_ties = margins 1e-12..1e-6 around the default epsilon, "
+        "huge = +-2^60, zeros), objectives passed as float / int / numpy.float64 / numpy.int64, float-typed parameters and "
+        "budgets, failures at the first step, two searches on one storage, the caller editing every list it gets back, "
+        "the prototype stopper inspected at the end, thread evaluator and a second search() call end to end. non-trivial = at least one evaluation is "
         "stopped early (before max_steps, without failure) and at least one continues past a budget that >= 2 evaluations recorded")
 COQ_DIRS = ()
 
@@ -98,6 +102,20 @@ def make_stopper(case):
 
 
 # ---------------------------------------------------------------- implementation side
+def check_grid(case, z):
+    """fail closed: an objective outside the regimes for which TRUSTED argues that binary64 and exact arithmetic agree"""
+    sc = case.get("scale", 0)
+    ok = (sc <= 10 and abs(z) < 2 ** (10 + sc)) or (sc == 40 and abs(z - 2 ** 40) <= 2 ** 22) \
+        or (sc == 0 and 2 ** 59 <= abs(z) < 2 ** 62 and z % 2 ** 10 == 0)
+    if not ok:
+        raise ValueError("objective %d / 2^%d is outside the exact regimes of the harness" % (z, sc))
+
+
+def conv_budget(case, b, j):
+    """budgets are step numbers; the documented type is float: every third evaluation passes them as floats"""
+    return float(b) if case.get("btype") == "float" and j % 3 != 1 else b
+
+
 def conv_value(case, z, j, b):
     """the objective handed to record(): a failure string, or the number z / 2^scale as a Python float, a Python int,
     a numpy float64 or a numpy int64 (the integer types only when the value is integral)"""
@@ -105,6 +123,7 @@ def conv_value(case, z, j, b):
 
     if z is None:
         return "F" if (j + b) % 3 else "F_%d" % b
+    check_grid(case, z)
     scale = 2 ** case.get("scale", 0)
     vt = case.get("vtype", "float")
     if vt == "mixed":
@@ -159,6 +178,7 @@ class Impl:
         if self.jobs[j] is None:
             self._create(j)
         v = conv_value(self.case, z, j, b)
+        b = conv_budget(self.case, b, j)
         self.jobs[j].record(b, v)
         self.hist[j][0].append(b)
         self.hist[j][1].append(v)
@@ -291,7 +311,7 @@ def run_search(case):
 
     def do_rec(job, k, b, z):
         with lock:
-            job.record(b, conv_value(case, z, k, b))
+            job.record(conv_budget(case, b, k), conv_value(case, z, k, b))
             ops.append(["r", k, b, z])
             outs.append(None)
             snapshot(job)
@@ -498,7 +518,8 @@ def judge(case, ops, outs, metas, oracle=True, problems=()):
             res = r
         else:
             res["nontrivial"] = res["nontrivial"] or r["nontrivial"]
-    res["desc"] = res["desc"] + ["searches=%d" % len(set(groups)), "vtype=%s" % case.get("vtype", "float"), "ptype=%s" % case.get("ptype", "int")]
+    res["desc"] = res["desc"] + ["searches=%d" % len(set(groups)), "vtype=%s" % case.get("vtype", "float"), "ptype=%s" % case.get("ptype", "int"),
+                               "btype=%s" % case.get("btype", "int")]
     prev = [({}, 0)] * n
     for i, (o, mt) in enumerate(zip(ops, metas)):
         changed = [j for j in range(n) if mt[j] != prev[j]]
@@ -589,6 +610,8 @@ def gen_params(rng, stopper, tier):
         c.update(stop_step=rng.randint(1, ms + 2))
     if rng.random() < 0.2:
         c["ptype"] = "float"
+    if rng.random() < 0.15:
+        c["btype"] = "float"
     return c
 
 
@@ -691,6 +714,10 @@ EXH_CURVES = [
     ("constant", [[1, 1, 1, 1, 1, 1], [1, 1, 1, 1, 1, 1], [0, 1, 2, 1, 0, 0]]),
     ("failures", [[4, 7, None, 9, 9, 9], [5, 6, 8, 9, 10, 10], [6, None, 1, 1, 1, 1]]),
     ("monotone", [[1, 2, 3, 4, 5, 6], [3, 5, 7, 9, 11, 13], [2, 3, 4, 5, 6, 7]]),
+    # margins of 109 / 110 / 111 * 2^-40 around the default epsilon (109.95 * 2^-40), exact ties, 1e-6 relative margins
+    ("near_ties", [[2 ** 40 + 110, 2 ** 40, 2 ** 40 + 2 ** 20, 2 ** 40 + 1, 2 ** 40, 2 ** 40],
+                   [2 ** 40, 2 ** 40 + 109, 2 ** 40, 2 ** 40 + 111, 2 ** 40, 2 ** 40],
+                   [2 ** 40 + 220, 2 ** 40 + 219, 2 ** 40 - 2 ** 20, 2 ** 40, 2 ** 40 + 1, 2 ** 40]]),
 ]
 
 
@@ -713,7 +740,9 @@ def gen_exhaustive(stopper, tier_sets):
             return
         for prm in tier_sets[tier]:
             for fam, curves in [EXH_CURVES[i] for i in prm.get("_curves", [0])]:
-                base = dict(stopper=stopper, scale=0, eps=prm.get("eps", "default"), family=fam, lazy=False, drain=False)
+                base = dict(stopper=stopper, scale=FAMILY_SCALE.get(fam, 0), eps=prm.get("eps", "default"), family=fam, lazy=False, drain=False)
+                if fam not in FAMILY_SCALE:
+                    base["vtype"] = prm.get("_vtype", "float")
                 base.update({k: v for k, v in prm.items() if not k.startswith("_")})
                 for pre in itertools.product(range(3), repeat=4):
                     yield dict(base, max_steps=4, njobs=3, curves=curves, counts=[4, 4, 4], prefix=list(pre), gran="step")
@@ -762,15 +791,18 @@ def check_any(case):
 
 
 EXH_ASHA = {
-    "quick": [dict(rf=2, min_steps=1, _curves=[2]), dict(rf=3, min_steps=2, eps=[0, 0], _curves=[1])],
+    "quick": [dict(rf=2, min_steps=1, _curves=[2], _vtype="mixed"), dict(rf=3, min_steps=2, eps=[0, 0], _curves=[1], _vtype="int"),
+              dict(rf=2, min_steps=1, _curves=[4])],
     "thorough": [dict(rf=rf, min_steps=m, mesr=e, min_full=(1 if (rf + m + e) % 3 == 0 else 0), eps=("default" if (rf + m) % 2 else [0, 0]),
-                      _curves=([0, 2] if (rf + m + e) % 2 else [1, 3]))
+                      _curves=([0, 2] if (rf + m + e) % 2 else [1, 3]) + ([4] if rf == 3 and e == 0 else []), _vtype=("mixed" if m == 2 else "float"))
                  for rf in (2, 3, 4) for m in (1, 2) for e in (0, 1) if not (m == 2 and e == 1)],
 }
 EXH_MEDIAN = {
-    "quick": [dict(min_comp=2, interval=1, min_steps=1, eps=[0, 0], _curves=[1]), dict(min_comp=3, interval=2, min_steps=1, _curves=[2])],
+    "quick": [dict(min_comp=2, interval=1, min_steps=1, eps=[0, 0], _curves=[1], _vtype="int"),
+              dict(min_comp=3, interval=2, min_steps=1, _curves=[2], _vtype="mixed"), dict(min_comp=0, interval=1, min_steps=1, _curves=[4])],
     "thorough": [dict(min_comp=mc, interval=iv, min_steps=(2 if (mc + iv) % 4 == 0 else 1), eps=("default" if (mc + iv) % 2 else [0, 0]),
-                      _curves=([1, 3] if (mc + iv + mc // 2) % 2 == 0 else [0, 2]))
+                      _curves=([1, 3] if (mc + iv + mc // 2) % 2 == 0 else [0, 2]) + ([4] if iv == 1 and mc in (0, 2) else []),
+                      _vtype=("mixed" if iv == 2 else "float"))
                  for mc in (0, 1, 2, 3) for iv in (1, 2, 3) if not (iv == 3 and mc < 2)],
 }
 
@@ -831,7 +863,7 @@ def gen_search(count):
 
 
 def shrink_search(case):
-    for k, v in (("second_call", 0), ("method", "serial"), ("vtype", "float"), ("ptype", "int"), ("min_full", 0), ("mesr", 0), ("min_steps", 1),
+    for k, v in (("second_call", 0), ("method", "serial"), ("vtype", "float"), ("ptype", "int"), ("btype", "int"), ("min_full", 0), ("mesr", 0), ("min_steps", 1),
                  ("eps", [0, 0]), ("interval", 1), ("min_comp", 0)):
         if k in case and case[k] != v:
             yield dict(case, **{k: v})
@@ -866,7 +898,7 @@ def shrink_common(case):
     if n > 1:
         for j in range(n):
             yield drop_job(case, j)
-    for k, v in (("searches", None), ("vtype", "float"), ("ptype", "int"), ("lazy", False), ("min_full", 0), ("mesr", 0), ("min_steps", 1),
+    for k, v in (("searches", None), ("vtype", "float"), ("ptype", "int"), ("btype", "int"), ("lazy", False), ("min_full", 0), ("mesr", 0), ("min_steps", 1),
                  ("eps", [0, 0]), ("interval", 1), ("min_comp", 0)):
         if k in case and case[k] != v:
             yield dict(case, **{k: v})
@@ -904,7 +936,7 @@ def shrink_free(case):
 # ---------------------------------------------------------------- streams
 def streams(tier):
     th = tier == "thorough"
-    n = 6000 if th else 500
+    n = 6000 if th else 600
     return [
         Stream("asha_protocol", gen_proto("asha", n), check_proto, shrink_proto, timeout=60),
         Stream("median_protocol", gen_proto("median", n), check_proto, shrink_proto, timeout=60),
@@ -913,7 +945,7 @@ def streams(tier):
         Stream("asha_exhaustive", gen_exhaustive("asha", EXH_ASHA), check_any, shrink_block, timeout=300),
         Stream("median_exhaustive", gen_exhaustive("median", EXH_MEDIAN), check_any, shrink_block, timeout=300),
         Stream("free_ops", gen_free(4000 if th else 600), check_free, shrink_free, timeout=60),
-        Stream("search_end_to_end", gen_search(1500 if th else 200), check_search, shrink_search, timeout=120),
+        Stream("search_end_to_end", gen_search(1500 if th else 300), check_search, shrink_search, timeout=120),
     ]
 
 
